@@ -368,7 +368,29 @@ class Analysis:
         return v
 
     # ---- obligations ----------------------------------------------------------------------
-    def oblige(self, st, node, kind, key, offset, extent, text):
+    _SIZES = {"char": 1, "signed char": 1, "unsigned char": 1, "void": 1, "short": 2, "unsigned short": 2, "int": 4,
+              "unsigned int": 4, "long": 8, "unsigned long": 8, "long long": 8, "unsigned long long": 8, "float": 4, "double": 8}
+
+    def elem_bytes(self, arg):
+        """size in bytes of what a pointer argument points to (1 when unknown: capacities then count bytes)"""
+        x = arg
+        while x.k in ("ImplicitCastExpr", "CStyleCastExpr", "ParenExpr") and x.ch:
+            if x.get("ck") in ("BitCast",) and x.k == "ImplicitCastExpr":
+                x = x.child(0)          # the conversion to void * at the call: look at the original pointer
+                continue
+            if x.k == "CStyleCastExpr":
+                break
+            x = x.child(0)
+        ct = (x.get("ct") or "").replace("const ", "").replace("volatile ", "").strip()
+        if ct.endswith("*"):
+            ct = ct[:-1].strip()
+        elif "[" in ct:
+            ct = ct[:ct.index("[")].strip()
+        else:
+            return 1
+        return self._SIZES.get(ct, 1)
+
+    def oblige(self, st, node, kind, key, offset, extent, text, scale=1):
         """0 <= offset and offset + extent <= cap(key)"""
         site = self.sites.setdefault(node.id, Site(node, kind, text))
         cap = self.cap_of(st, key)
@@ -376,6 +398,8 @@ class Analysis:
             site.results.append((False, False, True, "capacity/offset/extent of `%s` not expressible" % text,
                                  None, None))
             return
+        if scale and scale > 1:
+            cap, offset = cap.scale(scale), offset.scale(scale)
         goals = [("offset >= 0", offset.scale(-1)), ("offset + extent <= capacity", le(offset + extent, cap))]
         for gtxt, g in goals:
             if entails(st.cons, g):
@@ -639,11 +663,13 @@ class Analysis:
             return None
         kind = ct["kind"]
         ret = None
-        if kind in ("memcpy", "memset"):          # writes arg[n] elements at arg[d]
+        if kind in ("memcpy", "memset"):          # writes arg[n] BYTES at arg[d]
             d = aptr(ct.get("dst", 0))
             ext = aval(ct.get("len", 2))
             if d is not None:
-                self.oblige(st, n, "call", d[0], d[1], ext, n.src)
+                # capacities are counted in elements: for a destination of wider elements offset and capacity are scaled
+                esz = self.elem_bytes(args[ct.get("dst", 0)])
+                self.oblige(st, n, "call", d[0], d[1], ext, n.src, scale=esz)
                 st.slen.pop(d[0], None)
             elif self.tracked_dest(args[ct.get("dst", 0)]):
                 self.unknown_dest(n, args[ct.get("dst", 0)])
